@@ -103,7 +103,7 @@ def gen(rng, n, tier):
         layout = "F" if len(shape) > 1 and rng.random() < 0.4 else "C"      # memory order of the data array only
         named = "T" if rng.random() < 0.15 else "F"                         # the (name, data) form of a pandas groupby item
         yield [["bucket", "%s/%s/%s/w%s" % (style, form.split("-")[0], malformed, wkind)], ["data", data], ["shape", shape], ["incl", incl],
-               ["layout", layout], ["named", named], ["spread", spread],
+               ["layout", layout], ["named", named], ["spread", spread], ["sliced", "T" if (malformed == "none" and rng.random() < 0.5) else "F"],
                ["wkind", wkind], ["weights", weights], ["wshape_ok", wshape_ok], ["bins", bins], ["form", form],
                ["dtype", dtype], ["keep_missed", keep], ["dropna", dropna]]
 
@@ -129,6 +129,23 @@ def impl(case):
         elif form == "edges": bins = np.array([pairs[0][0]] + [p[1] for p in pairs])
         elif form == "list": bins = [pairs[0][0]] + [p[1] for p in pairs]
         else: bins = C.mk_binning(d["bins"], form.split("-")[1], d["incl"] == "T")
+        if form == "binning-static" and d.get("sliced", "F") == "T":
+            # the same bins obtained as a selection from a larger binning whose representations were looked at (and cached) before
+            from physt.binnings import StaticBinning
+            pr = sorted(pairs)
+            consecutive = all(pr[k][1] == pr[k + 1][0] for k in range(len(pr) - 1))
+            if consecutive:
+                parent = StaticBinning(np.array(pr + [[pr[-1][1] + 1.0, pr[-1][1] + 2.0]]), includes_right_edge=d["incl"] == "T")
+                _ = (parent.is_consecutive(), parent.bins, parent.first_edge, parent.last_edge)
+                bins = parent[0:len(pr)]
+            else:
+                full = []
+                for k, b_ in enumerate(pr):
+                    full.append(b_)
+                    if k + 1 < len(pr) and b_[1] < pr[k + 1][0]: full.append([b_[1], pr[k + 1][0]])
+                parent = StaticBinning(np.array(full), includes_right_edge=d["incl"] == "T")
+                _ = (parent.is_consecutive(), parent.numpy_bins, parent.bins)
+                bins = parent[np.array([b_ in pr for b_ in full])]
         h = physt.h1(data, bins, **kw)
     except Exception as e:
         return ["refused"]
